@@ -693,12 +693,57 @@ def block_paths(fi: FunctionInfo, stmts, bindings: Optional[Dict[str, object]] =
     return out
 
 
+def _literal(v: ast.AST) -> bool:
+    if isinstance(v, ast.Constant):
+        return True
+    if isinstance(v, (ast.Tuple, ast.List, ast.Set)):
+        return all(_literal(e) for e in v.elts)
+    if isinstance(v, ast.Dict):
+        return all(k is not None and _literal(k) and _literal(x) for k, x in zip(v.keys, v.values))
+    if isinstance(v, ast.UnaryOp) and isinstance(v.operand, ast.Constant):
+        return True
+    return False
+
+
+def module_constants(fi: FunctionInfo) -> Dict[str, ast.AST]:
+    """module-level NAME = <literal> bound exactly once in the module and not
+    shadowed by a local of the function: the evaluators read them as values"""
+    tree = fi.module.tree
+    cache = getattr(tree, "_module_constants", None)
+    if cache is None:
+        counts: Dict[str, int] = {}
+        vals: Dict[str, ast.AST] = {}
+        for st in tree.body:
+            for n in ast.walk(st) if not isinstance(st, (ast.FunctionDef, ast.ClassDef, ast.AsyncFunctionDef)) else []:
+                if isinstance(n, ast.Name) and isinstance(n.ctx, ast.Store):
+                    counts[n.id] = counts.get(n.id, 0) + 1
+            if isinstance(st, ast.Assign) and len(st.targets) == 1 and isinstance(st.targets[0], ast.Name) and _literal(st.value):
+                vals[st.targets[0].id] = st.value
+        for n in ast.walk(tree):
+            if isinstance(n, ast.Global):
+                for nm in n.names:
+                    counts[nm] = counts.get(nm, 0) + 2
+        cache = {k: v for k, v in vals.items() if counts.get(k) == 1}
+        tree._module_constants = cache  # type: ignore[attr-defined]
+    if not cache:
+        return {}
+    local = set(fi.params)
+    f = fi
+    while f is not None:
+        for n in ast.walk(f.node):
+            if isinstance(n, ast.Name) and isinstance(n.ctx, ast.Store):
+                local.add(n.id)
+        local |= set(f.params)
+        f = f.parent
+    return {k: v for k, v in cache.items() if k not in local}
+
+
 def paths(fi: FunctionInfo, bindings: Optional[Dict[str, object]] = None, repo=None) -> List[Path]:
     """every path through a small function with its facts, returned value and
     stores (engine.patheval); bindings: parameter -> python constant or ast;
     repo given: calls of single-path repository helpers are replaced by what
     they return"""
-    b = {}
+    b = dict(module_constants(fi))
     for k, v in (bindings or {}).items():
         b[k] = v if isinstance(v, ast.AST) else ast.Constant(v)
     post = complement_norm if repo is None else (lambda x: complement_norm(inline_helpers(repo, fi, x)))
